@@ -13,7 +13,8 @@ Part 2 instantiates it with the files `specWrite` emits, for every choice stream
 `chunks_spec` / `groups_spec` (what `specWriteLog` lays out and what its footer decodes to),
 `spFooter_need` / `decVal_spFooter` / `decFMD_spFooter` (the footer, with or without key/value metadata and
 `created_by`, through the thrift decoder with the reader's fuel and through `FileMetaData.Read`),
-`grgOK_spec` (every row group is one the reader handles) and the whole-file theorem `readAll_specWrite`.
+`grgOK_spec` (every row group — also one without records — is one the reader handles) and the whole-file
+theorem `readAll_specWrite`.
 -/
 namespace PQ
 open PQ.Thrift
@@ -288,7 +289,6 @@ structure GRG.OK (dc : Decomp) (cols : List Col) (g : GRG) : Prop where
   hreads : ∀ ch ∈ g.chunks, ChunkReads dc ch
   hbufs : g.chunks.map (fun ch => colBufOf ch.col ch.es) = bufsOf cols g.recs
   hrecs : ∀ r ∈ g.recs, ∀ x ∈ cols.zipIdx, RecRd x.1 (r.getD x.2 [])
-  hne : g.recs ≠ []
 
 def dataOf (gs : List GRG) : Bytes := gs.flatMap fun g => gBytes g.chunks
 
@@ -329,12 +329,83 @@ theorem readRowGroup_first (dc : Decomp) (cols : List Col) (hres : ColsResolve c
   simp only [List.map_cons, pagesForG, List.length_append] at this ⊢
   exact this
 
+theorem sum_recs_zero : ∀ (gs : List GRG), (gs.map (·.recs.length)).sum = 0 → gs.flatMap (·.recs) = []
+  | [], _ => rfl
+  | g :: gs, h => by
+    simp only [List.map_cons, List.sum_cons] at h
+    have h1 : g.recs = [] := List.eq_nil_of_length_eq_zero (by omega)
+    rw [List.flatMap_cons, h1, sum_recs_zero gs (by omega)]
+    rfl
+
+/-- **Loading the next row group that holds rows.**  With rows left in the row groups `gs` still to be
+loaded (laid out from `pre.length`), `readRowGroup` followed by the skipping loop of `Next` (with fuel for
+the row groups left) ends with the first row group of `gs` that holds records loaded — `r :: rs` — and
+positioned after it, at the start of the row groups `gs'` that follow it; the row groups in between hold no
+records. -/
+theorem loadSkip_gen (dc : Decomp) (cols : List Col) (hres : ColsResolve cols) (N : Int) (post : Bytes) :
+    ∀ (gs : List GRG), (∀ g ∈ gs, g.OK dc cols) → 0 < (gs.map (·.recs.length)).sum →
+    ∀ (pre : Bytes) (cu rc rn : Int) (bufs0 : List ColBuf) (fs : Bool),
+    ∃ st', RState.readRowGroup
+        { cols := cols, dc := dc, src := Src.mk (pre ++ dataOf gs ++ post) pre.length,
+          rows := N, cursor := cu, rgCursor := rc, rgCount := rn,
+          pages := pagesForG cols.length (gs.map (·.chunks)),
+          rowGroups := gs.map (·.rgm), bufs := bufs0, err := false, fieldsSet := fs } = .ok st' ∧
+      st'.rowGroups.length + 1 = gs.length ∧
+      ∃ (pre' : Bytes) (gs' : List GRG) (r : Rec) (rs : List Rec),
+        pre ++ dataOf gs ++ post = pre' ++ dataOf gs' ++ post ∧
+        gs.flatMap (·.recs) = (r :: rs) ++ gs'.flatMap (·.recs) ∧
+        (gs.map (·.recs.length)).sum = (r :: rs).length + (gs'.map (·.recs.length)).sum ∧
+        (∀ g ∈ gs', g.OK dc cols) ∧
+        (∀ r' ∈ r :: rs, ∀ x ∈ cols.zipIdx, RecRd x.1 (r'.getD x.2 [])) ∧
+        ∀ fuel : Nat, gs.length ≤ fuel + 1 →
+          st'.skipEmpty fuel =
+            .ok { cols := cols, dc := dc, src := Src.mk (pre ++ dataOf gs ++ post) pre'.length,
+                  rows := N, cursor := cu, rgCursor := 0, rgCount := (((r :: rs).length : Nat) : Int),
+                  pages := pagesForG cols.length (gs'.map (·.chunks)),
+                  rowGroups := gs'.map (·.rgm), bufs := bufsOf cols (r :: rs), err := false, fieldsSet := true } := by
+  intro gs
+  induction gs with
+  | nil => intro _ h; simp at h
+  | cons b bs ih =>
+    intro hbs hsum pre cu rc rn bufs0 fs
+    have hbs' : ∀ b' ∈ bs, b'.OK dc cols := fun b' hb' => hbs b' (List.mem_cons_of_mem _ hb')
+    have hok := hbs b List.mem_cons_self
+    have hrecs := hok.hrecs
+    have hload := readRowGroup_first dc cols hres b bs hbs pre post N cu rc rn bufs0 fs
+    have hfile2 : pre ++ dataOf (b :: bs) ++ post = (pre ++ gBytes b.chunks) ++ dataOf bs ++ post := by
+      rw [dataOf_cons]; simp only [List.append_assoc]
+    simp only [List.map_cons, List.sum_cons] at hsum
+    refine ⟨_, hload, by simp, ?_⟩
+    cases hbr : b.recs with
+    | cons r b' =>
+      rw [hbr] at hrecs
+      refine ⟨pre ++ gBytes b.chunks, bs, r, b', hfile2, by simp [hbr], by simp [hbr], hbs', hrecs, ?_⟩
+      intro fuel _
+      exact skipEmpty_nonempty _ _ (by simp only [List.length_cons]; omega)
+    | nil =>
+      rw [hbr] at hsum
+      simp only [List.length_nil, Nat.zero_add] at hsum
+      obtain ⟨st'', hl2, _, pre', gs', r, rs, hf', hflat, hsm, hok', hrs, hskip⟩ :=
+        ih hbs' hsum (pre ++ gBytes b.chunks) cu 0 ((([] : List Rec).length : Nat) : Int) (bufsOf cols []) true
+      rw [← hfile2] at hl2 hf' hskip
+      refine ⟨pre', gs', r, rs, hf', by simp [hbr, hflat], by simp [hbr, hsm], hok', hrs, ?_⟩
+      intro fuel hfuel
+      cases bs with
+      | nil => simp at hsum
+      | cons b2 bs2 =>
+        cases fuel with
+        | zero => simp at hfuel
+        | succ f =>
+          rw [RState.skipEmpty, if_pos ⟨by simp, by simp⟩, hl2]
+          exact hskip f (by simp only [List.length_cons] at hfuel ⊢; omega)
+
 /-- **The `Next`/`Scan` loop, any chunk layout.**  `rs`: the records of the loaded row group not yet
-delivered; `gs`: the row groups still to be loaded, laid out from `pre.length`. -/
+delivered; `gs`: the row groups still to be loaded, laid out from `pre.length` — any of them may hold no
+records: `Next` moves past those. -/
 theorem readLoop_gen (dc : Decomp) (cols : List Col) (hres : ColsResolve cols) (N : Int) (post : Bytes) :
-    ∀ (gs : List GRG), (∀ g ∈ gs, g.OK dc cols) →
+    ∀ (fuel : Nat) (gs : List GRG), (∀ g ∈ gs, g.OK dc cols) →
     ∀ (rs : List Rec), (∀ r ∈ rs, ∀ x ∈ cols.zipIdx, RecRd x.1 (r.getD x.2 [])) →
-    ∀ (pre : Bytes) (cu rc rn : Int) (fuel : Nat) (acc : List (List (List (Entry Bytes)))),
+    ∀ (pre : Bytes) (cu rc rn : Int) (acc : List (List (List (Entry Bytes)))),
       N = cu + (rs.length : Nat) + ((((gs.map (·.recs.length)).sum : Nat)) : Int) →
       rn = rc + (rs.length : Nat) →
       rs.length + (gs.map (·.recs.length)).sum < fuel →
@@ -345,76 +416,40 @@ theorem readLoop_gen (dc : Decomp) (cols : List Col) (hres : ColsResolve cols) (
             rowGroups := gs.map (·.rgm), bufs := bufsOf cols rs, err := false,
             fieldsSet := true } acc =
         some (acc ++ (rs ++ gs.flatMap (·.recs)).map (rowOf cols.length)) := by
-  intro gs
-  induction gs with
-  | nil =>
-    intro _ rs
-    induction rs with
+  intro fuel
+  induction fuel with
+  | zero => intro _ _ _ _ _ _ _ _ _ _ _ hf; omega
+  | succ f ih =>
+    intro gs hgs rs hrs pre cu rc rn acc hN hrn hf
+    cases rs with
+    | cons r rs =>
+      simp only [List.length_cons, Int.natCast_add, Int.natCast_one] at hN hrn hf
+      have hnext := next_within { cols := cols, dc := dc, src := Src.mk (pre ++ dataOf gs ++ post) pre.length, rows := N, cursor := cu, rgCursor := rc, rgCount := rn, pages := pagesForG cols.length (gs.map (·.chunks)), rowGroups := gs.map (·.rgm), bufs := bufsOf cols (r :: rs), err := false, fieldsSet := true }
+        rfl (by simp only; omega) (by simp only; omega)
+      rw [readLoop_step f _ _ acc _ _ hnext rfl rfl (scanAll_bufsOf cols r rs hrs)]
+      simp only
+      rw [ih gs hgs rs (fun r' hr' => hrs r' (List.mem_cons_of_mem _ hr')) pre (cu + 1) (rc + 1) rn (acc ++ [rowOf cols.length r])
+        (by omega) (by omega) (by omega)]
+      simp
     | nil =>
-      intro _ pre cu rc rn fuel acc hN _ hf
-      cases fuel with
-      | zero => omega
-      | succ f =>
-        rw [readLoop_done f _ acc rfl (by simp at hN ⊢; omega)]
+      simp only [List.length_nil, Int.natCast_zero, Int.add_zero, Nat.zero_add] at hN hrn hf
+      by_cases hz : (gs.map (·.recs.length)).sum = 0
+      · -- only row groups without records are left: `cursor = Rows()` already
+        rw [readLoop_done f _ acc rfl (by simp only [hz] at hN ⊢; omega), sum_recs_zero gs hz]
         simp
-    | cons r rs ih =>
-      intro hrs pre cu rc rn fuel acc hN hrn hf
-      cases fuel with
-      | zero => omega
-      | succ f =>
-        simp only [List.length_cons, Int.natCast_add, Int.natCast_one] at hN hrn hf
-        have hnext := next_within { cols := cols, dc := dc, src := Src.mk (pre ++ dataOf [] ++ post) pre.length, rows := N, cursor := cu, rgCursor := rc, rgCount := rn, pages := pagesForG cols.length (([] : List GRG).map (·.chunks)), rowGroups := ([] : List GRG).map (·.rgm), bufs := bufsOf cols (r :: rs), err := false, fieldsSet := true }
-          rfl (by simp only; omega) (by simp only; omega)
-        rw [readLoop_step f _ _ acc _ _ hnext rfl rfl (scanAll_bufsOf cols r rs hrs)]
+      · obtain ⟨st', hl, hlen, pre', gs', r, rs', hf', hflat, hsm, hok', hrs', hskip⟩ :=
+          loadSkip_gen dc cols hres N post gs hgs (by omega) pre cu rc rn (bufsOf cols []) true
+        have hnext := next_load_skip _ st' _ rfl (by simp only; omega) (by simp only; omega) hl
+          (hskip st'.rowGroups.length (by omega))
+        rw [readLoop_step f _ _ acc _ _ hnext rfl rfl (scanAll_bufsOf cols r rs' hrs')]
         simp only
-        rw [ih (fun r' hr' => hrs r' (List.mem_cons_of_mem _ hr')) pre (cu + 1) (rc + 1) rn f (acc ++ [rowOf cols.length r])
-          (by omega) (by omega) (by omega)]
-        simp
-  | cons b bs ihb =>
-    intro hbs rs
-    have hbs' : ∀ b' ∈ bs, b'.OK dc cols := fun b' hb' => hbs b' (List.mem_cons_of_mem _ hb')
-    induction rs with
-    | nil =>
-      intro _ pre cu rc rn fuel acc hN hrn hf
-      have hok := hbs b List.mem_cons_self
-      have hrecs := hok.hrecs
-      have hb := hok.hne
-      cases hbr : b.recs with
-      | nil => exact absurd hbr hb
-      | cons r b' =>
-        cases fuel with
-        | zero => omega
-        | succ f =>
-          rw [hbr] at hrecs
-          simp only [List.length_nil, List.map_cons, List.sum_cons, hbr, List.length_cons, Int.natCast_add, Int.natCast_one,
-            Int.natCast_zero, Int.add_zero] at hN hrn hf
-          have hload := readRowGroup_first dc cols hres b bs hbs pre post N cu rc rn (bufsOf cols []) true
-          rw [hbr] at hload
-          have hnext := next_load _ _ rfl (by simp only; omega) (by simp only; omega) hload
-            (by simp only [List.length_cons]; omega)
-          rw [readLoop_step f _ _ acc _ _ hnext rfl rfl (scanAll_bufsOf cols r b' hrecs)]
-          simp only
-          have hfile2 : pre ++ dataOf (b :: bs) ++ post = (pre ++ gBytes b.chunks) ++ dataOf bs ++ post := by
-            rw [dataOf_cons]; simp only [List.append_assoc]
-          have := ihb hbs' b' (fun r' hr' => hrecs r' (List.mem_cons_of_mem _ hr'))
-            (pre ++ gBytes b.chunks) (cu + 1) (0 + 1) (((r :: b').length : Nat) : Int) f
-            (acc ++ [rowOf cols.length r]) (by omega) (by simp only [List.length_cons, Int.natCast_add, Int.natCast_one]; omega)
-            (by omega)
-          rw [← hfile2] at this
-          rw [this]
-          simp [hbr]
-    | cons r rs ih =>
-      intro hrs pre cu rc rn fuel acc hN hrn hf
-      cases fuel with
-      | zero => omega
-      | succ f =>
-        simp only [List.length_cons, Int.natCast_add, Int.natCast_one] at hN hrn hf
-        have hnext := next_within { cols := cols, dc := dc, src := Src.mk (pre ++ dataOf (b :: bs) ++ post) pre.length, rows := N, cursor := cu, rgCursor := rc, rgCount := rn, pages := pagesForG cols.length ((b :: bs).map (·.chunks)), rowGroups := (b :: bs).map (·.rgm), bufs := bufsOf cols (r :: rs), err := false, fieldsSet := true }
-          rfl (by simp only; omega) (by simp only; omega)
-        rw [readLoop_step f _ _ acc _ _ hnext rfl rfl (scanAll_bufsOf cols r rs hrs)]
-        simp only
-        rw [ih (fun r' hr' => hrs r' (List.mem_cons_of_mem _ hr')) pre (cu + 1) (rc + 1) rn f (acc ++ [rowOf cols.length r])
-          (by omega) (by omega) (by omega)]
+        rw [hf']
+        rw [ih gs' hok' rs' (fun r' hr' => hrs' r' (List.mem_cons_of_mem _ hr')) pre' (cu + 1) (0 + 1)
+          (((r :: rs').length : Nat) : Int) (acc ++ [rowOf cols.length r])
+          (by simp only [List.length_cons] at hsm; omega)
+          (by simp only [List.length_cons, Int.natCast_add, Int.natCast_one]; omega)
+          (by simp only [List.length_cons] at hsm; omega)]
+        rw [hflat]
         simp
 
 /-- **The whole read, any chunk layout**: a file `PAR1 ‖ chunks of the row groups ‖ footer ‖ length ‖ PAR1`
@@ -454,9 +489,9 @@ theorem readAll_gen (dc : Decomp) (cols : List Col) (hres : ColsResolve cols) (g
     have hfile2 : par1 ++ dataOf (b :: bs') ++ post = (par1 ++ gBytes b.chunks) ++ dataOf bs' ++ post := by
       rw [dataOf_cons]; simp only [List.append_assoc]
     simp only [List.map_cons, List.sum_cons] at hNN
-    have := readLoop_gen dc cols hres (NN : Int) post bs' (fun b' hb' => hok b' (List.mem_cons_of_mem _ hb')) b.recs
-      (hok b List.mem_cons_self).hrecs
-      (par1 ++ gBytes b.chunks) 0 0 ((b.recs.length : Nat) : Int) (((NN : Int) + 3).toNat) []
+    have := readLoop_gen dc cols hres (NN : Int) post (((NN : Int) + 3).toNat) bs'
+      (fun b' hb' => hok b' (List.mem_cons_of_mem _ hb')) b.recs (hok b List.mem_cons_self).hrecs
+      (par1 ++ gBytes b.chunks) 0 0 ((b.recs.length : Nat) : Int) []
       (by rw [← hNN]; simp) (by simp) (by omega)
     rw [← hfile2] at this
     rw [this]
@@ -857,7 +892,6 @@ theorem grgOK_spec (dc : Decomp) (cfg : SWCfg) (compress : Nat → Bytes → Byt
     (hch : ∃ cs', g.chunks = (spChunks cfg compress g.recs (cfg.cols.zip cfg.codecs) 0 cs').1)
     (hmeta : MetasFor g.chunks g.rgm.columns) (hrows : g.rgm.numRows = ((g.recs.length : Nat) : Int))
     (hrecs : ∀ r ∈ g.recs, ∀ x ∈ cfg.cols.zipIdx, RecColOK x.1 (r.getD x.2 []))
-    (hne : g.recs ≠ [])
     (hlen : ∀ x ∈ cfg.cols.zipIdx, (g.recs.flatMap (·.getD x.2 [])).length + 8 ≤ 2 ^ 28) :
     g.OK dc cfg.cols := by
   obtain ⟨cs', hcs'⟩ := hch
@@ -870,7 +904,7 @@ theorem grgOK_spec (dc : Decomp) (cfg : SWCfg) (compress : Nat → Bytes → Byt
     rw [← this]
     exact List.mem_map.mpr ⟨_, a, rfl⟩)
   rw [← hcs'] at p1 p2 p3
-  refine ⟨?_, hmeta, hrows, p2, ?_, ?_, hne⟩
+  refine ⟨?_, hmeta, hrows, p2, ?_, ?_⟩
   · rw [p1, map_fst_zip_le _ _ hle]
   · rw [p3, map_zip_zipIdx (fun c i => colBufOf c (g.recs.flatMap (·.getD i []))) _ _ 0 hle]
     rfl
@@ -892,19 +926,19 @@ column, exactly the entries the `k`-th record holds for it, and `Error()` is nil
 * `hrecs`: every record holds, per column, entries that start the record, have levels within the column's
   maxima, a value exactly at the maximum definition level, well-typed values (`RecColOK`, which the Dremel
   striping of a well-typed value satisfies: `recColOK_stripe`);
-* `hrg`: no row group is empty (see the note below);  `hdef`: level widths ≤ 4 bits;
+* `hdef`: level widths ≤ 4 bits;
 * `hlen`: fewer than `2^28 - 8` entries per column chunk;  `hsize`: the file is smaller than 4 GiB.
 
-`hrg` is needed: `Next` loads the next row group when `rgCursor ≥ rgCount` and then unconditionally counts
-a row, so a row group with `num_rows = 0` that is neither the first nor the last makes the reader deliver a
-zero-valued row. -/
+Row groups may be empty (`num_rows = 0`, every column chunk without pages), anywhere in the file — first,
+last, in between, several in a row: after loading a row group `Next` moves on past row groups that hold no
+rows (`RState.skipEmpty`, `loadSkip_gen`), and once only such row groups are left the cursor has reached
+`Rows()`, so `Next` is false without loading them. -/
 theorem readAll_specWrite (cfg : SWCfg) (compress : Nat → Bytes → Bytes) (dc : Decomp) (cs : Choices)
     (rowGroups : List (List Rec))
     (hres : ColsResolve cfg.cols)
     (hcodecs : cfg.codecs.length = cfg.cols.length ∧ ∀ c ∈ cfg.codecs, c ≤ 2)
     (hdc : ∀ raw, dc.snappy (compress 1 raw) = some raw ∧ dc.gzip (compress 2 raw) = some raw)
     (hrecs : ∀ rg ∈ rowGroups, ∀ r ∈ rg, ∀ x ∈ cfg.cols.zipIdx, RecColOK x.1 (r.getD x.2 []))
-    (hrg : ∀ rg ∈ rowGroups, rg ≠ [])
     (hdef : ∀ c ∈ cfg.cols, c.maxDef ≤ 15)
     (hlen : ∀ rg ∈ rowGroups, ∀ x ∈ cfg.cols.zipIdx, (rg.flatMap (·.getD x.2 [])).length + 8 ≤ 2 ^ 28)
     (hsize : (specWrite cfg compress none cs rowGroups).length < 2 ^ 32) :
@@ -917,7 +951,7 @@ theorem readAll_specWrite (cfg : SWCfg) (compress : Nat → Bytes → Bytes) (dc
   have hok : ∀ g ∈ gs, g.OK dc cfg.cols := by
     intro g hg
     obtain ⟨a, b, c⟩ := g5 g hg
-    exact grgOK_spec dc cfg compress hcodecs hdc hdef g a b c (hrecs _ (hmem g hg)) (hrg _ (hmem g hg)) (hlen _ (hmem g hg))
+    exact grgOK_spec dc cfg compress hcodecs hdc hdef g a b c (hrecs _ (hmem g hg)) (hlen _ (hmem g hg))
   obtain ⟨sd, hsd⟩ := mapM_some_of_isSome decSElem (specSchema cfg.cols)
     (fun t ht => ((specSchema_ok cfg.cols).1 t ht).2.2.2)
   have hfile := specWriteLog_eq cfg compress cs rowGroups
@@ -981,13 +1015,84 @@ example : readAllEntries fwCols fwDc (specWrite fwCfg (fun _ b => b) none fwCs f
       · have hr' : r = fwRec 4 := by simpa using hr
         subst hr'
         rcases hx' x hx with rfl | rfl <;> exact ⟨⟨_, _, rfl, rfl, by simp⟩, by decide, by decide⟩)
-    (by decide) (by decide)
+    (by decide)
     (by
       intro rg hrg x hx
       have hrg' : rg = [fwRec 1, fwRec 2, fwRec 3] ∨ rg = [fwRec 4] := by simpa [fwGroups] using hrg
       rcases hrg' with rfl | rfl <;> rcases hx' x hx with rfl | rfl <;> decide)
     (by decide +kernel)
   exact this
+
+/-- row groups without records — in the middle and at the end; at the very start -/
+private def fwGroupsE : List (List Rec) := [[fwRec 1], [], [fwRec 2, fwRec 3], []]
+private def fwGroupsE' : List (List Rec) := [[], [fwRec 4]]
+
+private theorem fw_hx : ∀ x ∈ fwCols.zipIdx, x = (⟨["a"], [.req], .i32⟩, 0) ∨ x = (⟨["b"], [.rpt], .i32⟩, 1) := by
+  intro x hx; simpa [fwCols] using hx
+
+private theorem fw_recOK (k : Nat) (hk : k < 10) : ∀ x ∈ fwCols.zipIdx, RecColOK x.1 ((fwRec k).getD x.2 []) := by
+  intro x hx
+  have hk' : k = 0 ∨ k = 1 ∨ k = 2 ∨ k = 3 ∨ k = 4 ∨ k = 5 ∨ k = 6 ∨ k = 7 ∨ k = 8 ∨ k = 9 := by omega
+  rcases fw_hx x hx with rfl | rfl <;> rcases hk' with rfl | rfl | rfl | rfl | rfl | rfl | rfl | rfl | rfl | rfl <;>
+    exact ⟨⟨_, _, rfl, rfl, by simp⟩, by decide, by decide⟩
+
+/-- the theorem applied to a file with empty row groups in the middle and at the end: 3 rows, the three
+written records, nothing else (no zero-valued row for the empty row groups) -/
+example : readAllEntries fwCols fwDc (specWrite fwCfg (fun _ b => b) none fwCs fwGroupsE) =
+    some (3, [fwRec 1, fwRec 2, fwRec 3]) := by
+  have := readAll_specWrite fwCfg (fun _ b => b) fwDc fwCs fwGroupsE
+    (colsResolve_of_check _ (by decide +kernel)) (by decide) (fun raw => ⟨rfl, rfl⟩)
+    (by
+      intro rg hrg r hr
+      have hrg' : rg = [fwRec 1] ∨ rg = [] ∨ rg = [fwRec 2, fwRec 3] := by
+        have := hrg; simp only [fwGroupsE, List.mem_cons, List.mem_nil_iff, or_false] at this
+        rcases this with h | h | h | h <;> simp [h]
+      rcases hrg' with rfl | rfl | rfl
+      · have hr' : r = fwRec 1 := by simpa using hr
+        subst hr'; exact fw_recOK 1 (by decide)
+      · simp at hr
+      · have hr' : r = fwRec 2 ∨ r = fwRec 3 := by simpa using hr
+        rcases hr' with rfl | rfl
+        · exact fw_recOK 2 (by decide)
+        · exact fw_recOK 3 (by decide))
+    (by decide)
+    (by
+      intro rg hrg x hx
+      have hrg' : rg = [fwRec 1] ∨ rg = [] ∨ rg = [fwRec 2, fwRec 3] := by
+        have := hrg; simp only [fwGroupsE, List.mem_cons, List.mem_nil_iff, or_false] at this
+        rcases this with h | h | h | h <;> simp [h]
+      rcases hrg' with rfl | rfl | rfl <;> rcases fw_hx x hx with rfl | rfl <;> decide)
+    (by decide +kernel)
+  exact this
+
+/-- ... and to a file whose first row group is empty: the constructor loads it, the first `Next` moves on -/
+example : readAllEntries fwCols fwDc (specWrite fwCfg (fun _ b => b) none fwCs fwGroupsE') =
+    some (1, [fwRec 4]) := by
+  have := readAll_specWrite fwCfg (fun _ b => b) fwDc fwCs fwGroupsE'
+    (colsResolve_of_check _ (by decide +kernel)) (by decide) (fun raw => ⟨rfl, rfl⟩)
+    (by
+      intro rg hrg r hr
+      have hrg' : rg = [] ∨ rg = [fwRec 4] := by simpa [fwGroupsE'] using hrg
+      rcases hrg' with rfl | rfl
+      · simp at hr
+      · have hr' : r = fwRec 4 := by simpa using hr
+        subst hr'; exact fw_recOK 4 (by decide))
+    (by decide)
+    (by
+      intro rg hrg x hx
+      have hrg' : rg = [] ∨ rg = [fwRec 4] := by simpa [fwGroupsE'] using hrg
+      rcases hrg' with rfl | rfl <;> rcases fw_hx x hx with rfl | rfl <;> decide)
+    (by decide +kernel)
+  exact this
+
+/-- the same by kernel evaluation of the writer and reader models alone (not through the theorem; `==` is
+the derived structural `BEq`), and a file with nothing but empty row groups -/
+example : (readAllEntries fwCols fwDc (specWrite fwCfg (fun _ b => b) none fwCs fwGroupsE) ==
+    some (3, [fwRec 1, fwRec 2, fwRec 3])) = true := by decide +kernel
+example : (readAllEntries fwCols fwDc (specWrite fwCfg (fun _ b => b) none fwCs fwGroupsE') ==
+    some (1, [fwRec 4])) = true := by decide +kernel
+example : (readAllEntries fwCols fwDc (specWrite fwCfg (fun _ b => b) none fwCs [[], [], []]) ==
+    some (0, [])) = true := by decide +kernel
 
 end NonVacuity
 
